@@ -12,7 +12,7 @@
         utils.py:142-143           preprocess_tokens(fmt)
         utils.py:169-170           tokenparser(fmt, keys)
         dtypes.py:137-139          Dtype._new_from_token(cls, token, scale)
-        dtypes.py:146-148          Dtype._create(cls, definition, length, scale)     (keys compared with ==)
+        dtypes.py:146-148          Dtype._create(cls, definition, length, scale)     (typed=True since e6496ea)
       with `CACHE_SIZE = 256` (bitstore_helpers.py:15, utils.py:14, dtypes.py:9),
     * the `Options` singleton (bitstring_options.py:7-86): `_lsb0`, `_bytealigned`, `_mxfp_overflow`, and the
       thirteen class attributes `set_lsb0` re-binds (bitstring_options.py:46-73),
@@ -389,8 +389,10 @@ def strCfg (cap : Nat) (inv : Bool) : Cfg Call Call Val :=
   { cap := cap, key := id, f := sem .strToBitstore,
     inval := fun n => match n with | .bytealigned => false | _ => inv }
 
-/-! ## `Dtype._create`: the key is `(definition, length, scale)` compared with `==`, so `2`, `2.0`, `True`-like
-    scales collide (dtypes.py:146-148); the Dtype that is served carries the scale object of the first caller. -/
+/-! ## `Dtype._create` / `Dtype._new_from_token`: the key is `(definition, length, scale)`.  `functools.lru_cache`
+    compares keys with `==` unless `typed=True`; with `==`, `2`, `2.0` and `True`-like scales share an entry and the
+    Dtype that is served carries the scale OBJECT of the first caller.  Since e6496ea both caches are `typed=True`
+    (dtypes.py:137-138, 146-147): the type of every argument is part of the key. -/
 
 inductive ScaleKind where
   | int | float | bool
@@ -413,6 +415,10 @@ structure DtypeArg where
 def DtypeArg.key (a : DtypeArg) : String × Option Nat × Option (Int × Nat) :=
   (a.name, a.length, a.scale.map fun s => (s.num, s.den))
 
+/-- The cache key: the `==`-key, plus the argument types when the cache is `typed`. -/
+def DtypeArg.tkey (typed : Bool) (a : DtypeArg) : (String × Option Nat × Option (Int × Nat)) × Option ScaleKind :=
+  (a.key, if typed then a.scale.map (·.kind) else none)
+
 /-- `Dtype._create`: raises for a zero scale (dtypes.py:128-129), else a Dtype holding the scale object given. -/
 def dtypeCreate (_ : Opts) (a : DtypeArg) : Except Err DtypeArg :=
   match a.scale with
@@ -424,8 +430,9 @@ def DtypeArg.valueEq (a b : DtypeArg) : Prop := a.key = b.key
 
 instance (a b : DtypeArg) : Decidable (a.valueEq b) := by unfold DtypeArg.valueEq; infer_instance
 
-def dtypeCfg (cap : Nat) : Cfg DtypeArg (String × Option Nat × Option (Int × Nat)) DtypeArg :=
-  { cap := cap, key := DtypeArg.key, f := dtypeCreate, inval := fun _ => false }
+def dtypeCfg (cap : Nat) (typed : Bool) :
+    Cfg DtypeArg ((String × Option Nat × Option (Int × Nat)) × Option ScaleKind) DtypeArg :=
+  { cap := cap, key := DtypeArg.tkey typed, f := dtypeCreate, inval := fun _ => false }
 
 /-! ## Driver: one history per line -/
 
